@@ -131,7 +131,7 @@ class CSSStyleDeclaration(CSS2Properties, cssutils.util.Base2):
 
         def properties():
             for name in self.__nnames():
-                yield self.getProperty(name)
+                yield self.__effective(name)
 
         return properties()
 
@@ -221,6 +221,23 @@ class CSSStyleDeclaration(CSS2Properties, cssutils.util.Base2):
             if isinstance(val, Property) and val.name not in names:
                 names.append(val.name)
         return reversed(names)
+
+    def __effective(self, nname):
+        r"""Return the effective Property for the already normalized `nname`.
+
+        Names given by ``__nnames`` must not be normalized a second time:
+        the literal name ``a\\g`` has the normalized name ``a\g``, which
+        ``getProperty`` would normalize again to ``ag`` and not find.
+        """
+        found = None
+        for item in reversed(self.seq):
+            val = item.value
+            if isinstance(val, Property) and val.name == nname:
+                if val.priority:
+                    return val
+                elif not found:
+                    found = val
+        return found
 
     # overwritten accessor functions for CSS2Properties' properties
     def _getP(self, CSSName):
@@ -418,7 +435,7 @@ class CSSStyleDeclaration(CSS2Properties, cssutils.util.Base2):
                 return []
         elif not all:
             # effective Properties in name order
-            return [self.getProperty(name) for name in self.__nnames()]
+            return [self.__effective(name) for name in self.__nnames()]
         else:
             # all properties or all with this name
             nname = self._normalize(name)
